@@ -172,7 +172,14 @@ def nbs_bct(x, y, thresh, k=1000, tail='both', paired=False, verbose=False, seed
         workers = multiprocessing.cpu_count()
 
     pool = multiprocessing.Pool(workers)
-    perm_args = [(seed, u, xmat, ymat, thresh, tail, paired, m, n, ixes, nx, ny, verbose, null, max_sz, hit, k) for u in range(k)]
+    # one stream per permutation, drawn from the caller's generator: the same
+    # seed (or a RandomState pickled once per chunk of tasks) in every task
+    # made the permutations of a seeded run identical
+    if seed is None:
+        perm_seeds = [None] * k
+    else:
+        perm_seeds = [int(s) for s in get_rng(seed).randint(0, 2**32 - 1, size=k)]
+    perm_args = [(perm_seeds[u], u, xmat, ymat, thresh, tail, paired, m, n, ixes, nx, ny, verbose, null, max_sz, hit, k) for u in range(k)]
 
     # Parallelize permutation
     null_dist = pool.map(_permutation, perm_args)
